@@ -296,6 +296,13 @@ func isLog(msg string) func(ev) bool {
 }
 func isKind(k string) func(ev) bool { return func(x ev) bool { return x.Kind == k } }
 
+// isRunLog: the record the job logs in the task that sets it Running. (Not the creation of the checkpoint ticker:
+// whether a running job HAS a live ticker is part of what is judged.)
+func isRunLog(x ev) bool { return x.Kind == "log" && x.Node == "job" && x.Msg == "running" }
+
+const noTicker = "checkpointing does not resume: the job is Running on a full assembly but has no live periodic checkpoint ticker " +
+	"(on a clock whose Ticker.Stop is effective, like the production clock): no checkpoint will ever be started"
+
 // -------------------------------------------------------------- mirror ----
 
 func (e *fenv) purge() {
@@ -392,7 +399,7 @@ func (e *fenv) noteStatus() {
 		case y.Kind == "log" && (y.Msg == "assembly not healthy" || y.Msg == "failed to start job"):
 			e.used[j] = true
 			e.running = false
-		case y.Kind == "every" && y.Msg == "checkpointing":
+		case isRunLog(y):
 			e.used[j] = true
 			e.running = true
 			e.runs++
@@ -556,7 +563,7 @@ func (e *fenv) answer(id string, err error) bool {
 // outcome waits for the end of a start() all of whose Deploys have been answered: running / failed.
 func (e *fenv) outcome() (string, bool) {
 	x, ok := e.take(waitLong, func(x ev) bool {
-		return (x.Kind == "every" && x.Msg == "checkpointing") || (x.Kind == "log" && x.Msg == "failed to start job")
+		return isRunLog(x) || (x.Kind == "log" && x.Msg == "failed to start job")
 	})
 	if !ok {
 		return "", false
@@ -564,7 +571,7 @@ func (e *fenv) outcome() (string, bool) {
 	e.fence()
 	e.purge()
 	e.snapshot()
-	if x.Kind == "every" {
+	if isRunLog(x) {
 		e.running = true
 		e.runs++
 		e.noteStatus() // the evaluation at the end of the running task may have paused it again
@@ -830,6 +837,11 @@ func replayFake(bi int, beh []mbt.Step, in *mbt.Input, res *mbt.Result) {
 			if !got && !fin.Bool("ok") && !e.probeRunning() {
 				out, got = "failed", true // no recognisable log record, but the job itself says it is not running
 			}
+			if !got && e.probeRunning() {
+				res.Errors = append(res.Errors, fmt.Sprintf("behaviour %d step %d: the job accepts a savepoint (it is Running) but logged no \"running\" record: the harness' status derivation is outdated", bi, si))
+				ok = false
+				break
+			}
 			if !got {
 				viol(si, "", "every Deploy call has returned but the job neither runs nor reports a failed start")
 				ok = false
@@ -848,7 +860,7 @@ func replayFake(bi int, beh []mbt.Step, in *mbt.Input, res *mbt.Result) {
 		case "Tick":
 			id, srs, had := e.tick()
 			if !had {
-				viol(si, "", "the job is Running on a full assembly but has no checkpoint ticker")
+				viol(si, "", "%s", noTicker)
 				ok = false
 				break
 			}
@@ -932,6 +944,10 @@ func replayFake(bi int, beh []mbt.Step, in *mbt.Input, res *mbt.Result) {
 		return
 	}
 	if msg, known := e.epilogue(res); msg != "" {
+		if strings.HasPrefix(msg, "machinery: ") {
+			res.Errors = append(res.Errors, fmt.Sprintf("behaviour %d epilogue: %s", bi, msg))
+			return
+		}
 		viol(len(beh), known, "%s", msg)
 		return
 	}
@@ -996,6 +1012,9 @@ func (e *fenv) epilogue(res *mbt.Result) (string, string) {
 				e.answer(id, err)
 			}
 			if _, got := e.outcome(); !got {
+				if e.probeRunning() {
+					return "machinery: the job accepts a savepoint (it is Running) but logged no \"running\" record"
+				}
 				return "every Deploy call has returned but the job neither runs nor reports a failed start"
 			}
 			e.snaps = e.snaps[len(e.snaps)-1:]
@@ -1081,7 +1100,7 @@ func (e *fenv) epilogue(res *mbt.Result) (string, string) {
 		}
 		id, srs, had := e.tick()
 		if !had {
-			return "the job is Running but has no checkpoint ticker", ""
+			return noTicker, ""
 		}
 		if id == 0 {
 			note = "the checkpoint tick starts no checkpoint (checkpoint in progress) although no checkpoint of the running assembly is pending"
